@@ -383,14 +383,21 @@ def run_job(rep, job):
 
 def run_shard(rep):
     cfg = META['tiers'][rep.tier]
-    rep.require('interrupts_delivered', 500)
+    rep.require('interrupts_delivered', 200)
     jobs = jobs_for(rep, cfg)
     if rep.shard == 0:
         rep.count('jobs_enumerated', len(jobs))
     done = True
     mine = jobs[rep.shard::rep.nshards]
     # slow (process) jobs first so that the time budget cuts the cheap serial tail, not them
-    mine.sort(key=lambda j: 0 if j[1]['backend'] != 'serial' else 1)
+    proc = [j for j in mine if j[1]['backend'] != 'serial']
+    ser = [j for j in mine if j[1]['backend'] == 'serial']
+    mine = []
+    while proc or ser:          # interleave 1 process job : 6 serial jobs so a time cut hits both kinds evenly
+        if proc:
+            mine.append(proc.pop(0))
+        mine += ser[:6]
+        del ser[:6]
     for job in mine:
         if rep.expired():
             rep.count('skipped_for_time')
